@@ -11,6 +11,8 @@ Proof.
   - injection E as ->. apply N.eqb_refl.
   - apply andb_true_iff in E as [A B]. apply N.eqb_eq in A. apply Nat.eqb_eq in B. congruence.
   - injection E as -> ->. rewrite N.eqb_refl, Nat.eqb_refl. reflexivity.
+  - apply Nat.eqb_eq in E. congruence.
+  - injection E as ->. apply Nat.eqb_refl.
 Qed.
 
 Lemma fpath_eqb_refl p : fpath_eqb p p = true.
@@ -148,7 +150,7 @@ Proof. intros (L & B & I). repeat split; auto. Qed.
 
 (* ---------- invariant of quiescent states ---------- *)
 Definition temp_ctr (p : fpath) : nat :=
-  match p with FIndexTmp c | FIngest _ c => c | _ => 0%nat end.
+  match p with FIndexTmp c | FIngest _ c | FLayoutTmp c => c | _ => 0%nat end.
 
 (* Holds after every completed operation AND after every crash + reopen:
    - every reference of the tag resolver is also held by digest, and every digest held
@@ -1125,6 +1127,35 @@ Proof.
   - exact G.
 Qed.
 
+(* ---------- initialisation: a crash during the first oci.New is repaired by the next one ---------- *)
+Lemma shuffle_nil c : shuffle c [] = [].
+Proof.
+  destruct (shuffle c []) as [|e l] eqn:E; [reflexivity|]. exfalso.
+  apply (shuffle_In c [] e). rewrite E. now left.
+Qed.
+
+Lemma new_steps_eq li fs c :
+  new_steps shuffle false li fs c =
+  (if dirs fs DBlobs then [] else [Mkdir DBlobs]) ++
+  (if exists_file fs FLayout then [] else layout_steps li c) ++
+  (if exists_file fs FIndex then []
+   else [Create (FIndexTmp c); Write (FIndexTmp c) (AIndex []); Close (FIndexTmp c);
+         Rename (FIndexTmp c) FIndex]).
+Proof. unfold new_steps, index_steps. cbn [save map filter app]. now rewrite shuffle_nil. Qed.
+
+(* the first New is cut anywhere; the second New runs to completion *)
+Theorem init_restartable k :
+  let fsk := apply (firstn k (new_steps shuffle false false empty_fs 0)) empty_fs in
+  let fs2 := apply (new_steps shuffle false false fsk 1) fsk in
+  new_okb fsk = true /\
+  layout_okb fs2 = true /\ read_index fs2 = Some [] /\ dirs fs2 DBlobs = true /\
+  forall d, files fs2 (FBlob d) = None.
+Proof.
+  cbn zeta. rewrite !new_steps_eq.
+  do 9 (destruct k as [|k]; [vm_compute; repeat split; reflexivity|]).
+  destruct k; vm_compute; repeat split; reflexivity.
+Qed.
+
 End Crash.
 
 (* ---------- the code before the repair: index.json written in place ---------- *)
@@ -1234,4 +1265,24 @@ Theorem crash_safe_composite_src :
       (fsk = sfs (run H shuffle src_inplace src_unlink_first os s) /\
        layout_ok fsk /\ blob_ok H fsk /\ index_ok fsk).
 Proof. rewrite src_inplace_false, src_unlink_first_false. exact crash_safe_composite. Qed.
+
+(* oci-layout written in place (the code before the repair): cut after open(O_TRUNC) and
+   every later New fails on the empty oci-layout *)
+Lemma init_unrestartable_inplace (shuffle : nat -> list entry -> list entry) :
+  exists k, new_okb (apply (firstn k (new_steps shuffle false true empty_fs 0)) empty_fs) = false.
+Proof. exists 2%nat. reflexivity. Qed.
+
+Lemma src_layout_inplace_false : src_layout_inplace = false.
+Proof. vm_compute. reflexivity. Qed.
+
+Theorem init_restartable_src :
+  forall (shuffle : nat -> list entry -> list entry),
+    (forall c l e, In e (shuffle c l) <-> In e l) ->
+    forall k,
+      let fsk := apply (firstn k (new_steps shuffle src_inplace src_layout_inplace empty_fs 0)) empty_fs in
+      let fs2 := apply (new_steps shuffle src_inplace src_layout_inplace fsk 1) fsk in
+      new_okb fsk = true /\
+      layout_okb fs2 = true /\ read_index fs2 = Some [] /\ dirs fs2 DBlobs = true /\
+      forall d, files fs2 (FBlob d) = None.
+Proof. rewrite src_inplace_false, src_layout_inplace_false. exact init_restartable. Qed.
 
